@@ -51,3 +51,20 @@ Proof.
   - apply Qltb_lt in Hy. rewrite Hy. rewrite orb_true_r. reflexivity.
 Qed.
 Print Assumptions C12_negative_solution_refused.
+
+(* ---- the solvent is a CONTAINER (it may itself hold some of the solute): the new solution is an aliquot of the source plus an
+   aliquot of the solvent container; requested total and concentration, conservation of every substance over the three outputs,
+   uniform aliquots, invariants *)
+Require Import CsfThm2.
+Theorem C12_container_solvent_sound : forall cf src solute svt c q name src' svt' new,
+  Inv cf src -> Inv cf svt -> wf_subst solute -> is_enzyme solute = false ->
+  0 < total_in cf (cont src) (P0, BG) -> 0 < total_in cf (cont svt) (P0, BG) ->
+  create_solution_from_c cf src solute c svt q name = Ok ((src', svt'), new) ->
+  total_in cf (cont new) (P0, qbase q) == qv q /\
+  conv_stored cf solute (get solute (cont new)) (P0, cnum c) == cval c * total_in cf (cont new) (P0, cden c) /\
+  (forall k, get k (cont src') + get k (cont svt') + get k (cont new) == get k (cont src) + get k (cont svt)) /\
+  (exists f, 0 <= f /\ f <= 1 /\ forall k, get k (cont src') == get k (cont src) * (1 - f)) /\
+  (exists g, 0 <= g /\ g <= 1 /\ forall k, get k (cont svt') == get k (cont svt) * (1 - g)) /\
+  Inv cf src' /\ Inv cf svt' /\ Inv cf new.
+Proof. exact csf_c_sound. Qed.
+Print Assumptions C12_container_solvent_sound.
